@@ -45,10 +45,14 @@ def state_value(s):
 
 def kind_of(s):
     from sismic.model import (CompoundState, DeepHistoryState, FinalState, OrthogonalState, ShallowHistoryState)
-    if isinstance(s, ShallowHistoryState):
-        return 'KShallow'
+    exact = {'ShallowHistoryState': 'KShallow', 'DeepHistoryState': 'KDeep', 'FinalState': 'KFinal',
+             'OrthogonalState': 'KOrthogonal', 'CompoundState': 'KCompound', 'BasicState': 'KBasic'}.get(type(s).__name__)
+    if exact:
+        return exact
     if isinstance(s, DeepHistoryState):
         return 'KDeep'
+    if isinstance(s, ShallowHistoryState):
+        return 'KShallow'
     if isinstance(s, FinalState):
         return 'KFinal'
     if isinstance(s, OrthogonalState):
